@@ -4,3 +4,5 @@ import Ztr.Model.Layers
 import Ztr.Props.C08
 import Ztr.Lemmas.Layers
 import Ztr.Props.C10
+import Ztr.Model.Shuffle
+import Ztr.Props.C11
